@@ -498,6 +498,46 @@ pub fn conflict_defs() -> BoxedStrategy<DefSpec> {
         .boxed()
 }
 
+/// C08, wide definitions: 7-14 patterns that all match one short string (so that many leaves match in the same state),
+/// explicit priorities from a range wide enough to be mostly distinct, with the top priority given to one or to several
+/// patterns anywhere in the declaration order (also beyond the eighth leaf), as tokens, stacked patterns or skips.
+pub fn wide_conflict_defs() -> BoxedStrategy<DefSpec> {
+    const POOL: &[&str] = &[
+        "a", "[ab]", "[a-c]", "a|b", "a|cc", "[aA]", "a+", "a{1,2}", "(a)", "a|ab", "[^b]", "aa?", "a|bb|c", "[a-b]|x", "(?:a|c)", "a(?:b|c)?", "[[:alpha:]]", "\\w", "a|[0-9]", "[a0]",
+    ];
+    (vec((proptest::sample::select(POOL), 1usize..=20), 7..=14), 1usize..=3, vec(any::<u8>(), 3), 0usize..=2, any::<bool>(), vec(prop::bool::weighted(0.2), 14))
+        .prop_map(|(pats, n_top, top_at, n_skips, tie, share)| {
+            let top = 30usize;
+            let mut ps: Vec<PatSpec> = pats
+                .iter()
+                .map(|(t, pr)| {
+                    let mut p = PatSpec::regex(LitSpec::str(t.to_string()));
+                    p.priority = Some(*pr);
+                    p
+                })
+                .collect();
+            // the winner(s): `n_top` patterns get the top priority when `tie`, one otherwise
+            let k = if tie { n_top.max(2) } else { 1 };
+            for i in 0..k {
+                let at = (top_at[i % top_at.len()] as usize * ps.len()) >> 8;
+                ps[at].priority = Some(top);
+            }
+            let mut skips = vec![];
+            let mut variants: Vec<Vec<PatSpec>> = vec![];
+            for (i, p) in ps.into_iter().enumerate() {
+                if i < n_skips {
+                    skips.push(p);
+                } else if share[i % share.len()] && !variants.is_empty() {
+                    variants.last_mut().unwrap().push(p);
+                } else {
+                    variants.push(vec![p]);
+                }
+            }
+            DefSpec { utf8: true, subpatterns: vec![], skips, variants }
+        })
+        .boxed()
+}
+
 // ---------------------------------------------------------------------------------------------
 // C09: single patterns for the priority rule, and literal/regex pairs for the consequence clause.
 
